@@ -550,6 +550,45 @@ func runC08(c C08Case, ev *Evid) (fs []Finding) {
 		add("diff-not-clean", "%s: diff after the copy (incl. a copy -copy-nan pass) reports a difference:\n%s", desc, tail(readText(filepath.Join(dir, "diff.txt")), 600))
 		return
 	}
+	// later on (window until now): every source gets a newer point, the clock has moved on, and the SAME copy value
+	// (with -copy-nan, so that every slot of the window is the source's) is executed once more: "until now" means
+	// the now of each run, and a fresh diff at the later clock must be clean
+	laterRun := false
+	if c.Until == 0 && c.From <= now {
+		now2 := now + srcL.Archives[0].Step*int64(1+HashJSON(c)%3)
+		if now2 < 1<<32-srcL.MaxRet()-2*srcL.Archives[len(srcL.Archives)-1].Step {
+			laterRun = true
+			same := *mk()
+			same.CopyNaN = true
+			same.TextOut = ""
+			var err4 error
+			pm4 := atClock(now, func() { err4 = same.Execute() })
+			if err4 == nil && pm4 == "" {
+				for _, pr := range c.Pairs {
+					if err := modifyFile(filepath.Join(srcBase, pr.Rel), []SlotWrite{{Arch: 0, T: now2, V: 1}}, now2); err != nil {
+						add("setup", "later write: %v", err)
+						return
+					}
+				}
+				pm4 = atClock(now2, func() { err4 = same.Execute() })
+			}
+			if err4 != nil || pm4 != "" {
+				add("later-run-fails", "%s: the same copy value executed again at clock %d (after a newer point was stored in every source) failed: %v %s", desc, now2, err4, pm4)
+				return
+			}
+			d2 := *dc
+			d2.TextOut = filepath.Join(dir, "diff-later.txt")
+			var derr2 error
+			if dpm2 := atClock(now2, func() { derr2 = d2.Execute() }); dpm2 != "" {
+				add("diff-panic", "%s: diff at the later clock %d panicked: %s", desc, now2, dpm2)
+				return
+			}
+			if derr2 != nil {
+				add("later-run-incomplete", "%s: the same copy value executed again at clock %d (after a point at t=%d was stored in every source) leaves diff with: %v\n%s", desc, now2, now2, derr2, tail(readText(filepath.Join(dir, "diff-later.txt")), 600))
+				return
+			}
+		}
+	}
 	fresh := false
 	for i := range sts {
 		if !sts[i].existed || c.Pairs[i].DestMode == "fresh" {
@@ -572,6 +611,9 @@ func runC08(c C08Case, ev *Evid) (fs []Finding) {
 	}
 	if c.From == 0 && c.Until == 0 {
 		cls = append(cls, "default-window")
+	}
+	if laterRun {
+		cls = append(cls, "executed-again-later")
 	}
 	if copied > 0 {
 		cls = append(cls, "slots-copied")
